@@ -94,16 +94,16 @@ type Case struct {
 type Optic[S any] struct {
 	Prop    string
 	C       Case
-	Kind    string                  // lens | getter | setter
-	Get     func(*S) any            // through the optic
-	Put     func(*S, any) *S        // through the optic; returns what the optic returned
-	Read    func(*S) any            // oracle: read the focus through ordinary selectors (converted to the optic's view)
-	Write   func(*S, any)           // oracle: write the focus through ordinary selectors (given in the optic's view); nil for getter
-	Regions func(*S) []Region       // foci: offsets relative to s and sizes, from selectors
-	Fill    func(*S, int)           // fills every field with values determined by the int
-	Vals    []any                   // values in the optic's view
-	Zero    any                     // zero value of the view (setter.Get)
-	Expect  func(any) any           // what Read must give after Put(v) (identity for lenses)
+	Kind    string            // lens | getter | setter
+	Get     func(*S) any      // through the optic
+	Put     func(*S, any) *S  // through the optic; returns what the optic returned
+	Read    func(*S) any      // oracle: read the focus through ordinary selectors (converted to the optic's view)
+	Write   func(*S, any)     // oracle: write the focus through ordinary selectors (given in the optic's view); nil for getter
+	Regions func(*S) []Region // foci: offsets relative to s and sizes, from selectors
+	Fill    func(*S, int)     // fills every field with values determined by the int
+	Vals    []any             // values in the optic's view
+	Zero    any               // zero value of the view (setter.Get)
+	Expect  func(any) any     // what Read must give after Put(v) (identity for lenses)
 }
 
 func eq(a, b any) bool { return reflect.DeepEqual(a, b) }
